@@ -599,7 +599,13 @@ def _faulty_problem(cfg, inj):
 
     P = bd.Problem(cfg)
     E, off = P.E, P.off
-    h0_blocks = [FaultArray(P.blk(P.H0, i, i)) for i in range(P.nb)]
+    if P.carrier == "A":
+        # the library's own diagonal solver (and its elimination masks): numeric dyadic H_0, symbolic perturbation
+        P.check_dyadic()
+        ev = np.array([float(a) for a, _ in P.E_num])
+        h0_blocks = [np.diag(ev[off[i] : off[i + 1]]) for i in range(P.nb)]
+    else:
+        h0_blocks = [FaultArray(P.blk(P.H0, i, i)) for i in range(P.nb)]
     terms = P.H.data
     zo = P.zero_order
 
@@ -625,6 +631,8 @@ def _faulty_problem(cfg, inj):
 
     def make():
         H = BlockSeries(eval=Heval, shape=(P.nb, P.nb), n_infinite=P.nparams, name="H")
+        if P.carrier == "A":
+            return block_diagonalize(H, hermitian=P.hermitian, **P.fd_kwarg())
         return block_diagonalize(H, solve_sylvester=solve_sylvester, hermitian=P.hermitian)
 
     return P, make
@@ -795,6 +803,7 @@ def c11(cfg):
         )
     rec.obligations[-1]["fault_cases"] = n_cases
     rec.nontrivial = n_cases > 0
+    rec.guard("fault-injection-points-exist", n_cases > 0, f"callback invocations in the clean run: {counts}")
     rec.sample = {"config": cfg, "callback_invocations_in_clean_run": counts, "fault_cases": n_cases}
     return rec
 
@@ -881,6 +890,18 @@ def configs_c11(tier, seed):
             cfgs.append(dict(base, trigger=[0, 0, 0, mo], double=True, exceptions=["RuntimeError", "KeyboardInterrupt"]))
             # the interrupted request itself given as slice / list / negative index / finite view
             for form in ("order_slice", "block_slice", "negative", "list", "view"):
-                cfgs.append(dict(base, trigger=[0 if form != "negative" else 1, 0, nb - 1, mo], trigger_form=form, after="same_then_all",
+                cfgs.append(dict(base, trigger=[1, 0, nb - 1, mo] if form != "block_slice" else [0, 0, nb - 1, mo], trigger_form=form, after="same_then_all",
                                  exceptions=["Exception", "KeyboardInterrupt"] if tier == "quick" else ["Exception", "RuntimeError", "KeyboardInterrupt"]))
+    # carrier A: faults in H evaluation and in matrix products while the library's own diagonal solver and masks are active
+    for base in (dict(carrier="A", hermitian=True, sizes=[2, 1], spectrum=["0", "2", "1"], terms=[[1]], max_order=2, fd=[0]),
+                 dict(carrier="A", hermitian=True, sizes=[3], spectrum=["0", "1", "2"], terms=[[1]], max_order=2 if tier == "quick" else 3,
+                      fd={"0": [[0, 1, 0], [1, 0, 0], [0, 0, 0]]}),
+                 dict(carrier="A", hermitian=False, sizes=[2, 1], spectrum=["0", "2", "1"], terms=[[1]], max_order=2, fd={"0": [[0, 1], [0, 0]]}),
+                 dict(carrier="A", hermitian=True, sizes=[1, 1], spectrum=["0", "2"], terms=[[1], [2]], max_order=3)):
+        nb, mo = len(base["sizes"]), base["max_order"]
+        for tr in [(0, 0, 0, mo), (1, nb - 1, 0, mo), (2, 0, nb - 1, mo)]:
+            for after in ("same_then_all", "reverse"):
+                cfgs.append(dict(base, kinds=["H", "matmul"], trigger=list(tr), after=after))
+        cfgs.append(dict(base, kinds=["H", "matmul"], trigger=[0, 0, 0, mo], trigger_form="order_slice", after="same_then_all",
+                         exceptions=["Exception", "KeyboardInterrupt"]))
     return [("vf.props.history", "c11", c) for c in cfgs]
